@@ -135,6 +135,8 @@ func c10Order(c *Ctx) *RuleResult {
 					run = call
 				case sel.Sel.Name == "UploadOutputs":
 					upload = call
+				case uploadOutputsCallers(p)[calleeOf(info, call)]:
+					upload = call
 				}
 			}
 		}
